@@ -254,6 +254,43 @@ Proof.
     + destruct (f_version f); [left; auto | right; eexists; reflexivity].
 Qed.
 
+(* the same for every variant, i.e. also for the code as it is today, as long as the failure is not one
+   of the two persistence failures *)
+Lemma commit_early_failure var reg g st id f st' r evs :
+  do_commit var reg g st id f = (st', r, evs) ->
+  r <> ROk -> r <> RStartupSave -> r <> RVersionSave ->
+  st' = touch_state (expire st) id /\ trace_undone evs.
+Proof.
+  unfold do_commit, touch_state.
+  destruct (find_session (sessions (expire st)) id) as [s0|] eqn:Ef.
+  2:{ intros H; inversion H; subst. repeat split. }
+  destruct (sort_changes reg (running (expire st)) (s_changes (touch s0))) as [e|sorted] eqn:Es.
+  { destruct e; intros H; inversion H; subst; repeat split. }
+  destruct sorted as [|c0 sorted].
+  { intros H; inversion H; subst; repeat split. }
+  destruct (negb (precommit_ok g (s_cand (touch s0)))).
+  { intros H; inversion H; subst; repeat split. }
+  destruct (apply_loop reg (c0 :: sorted) 0 (f_apply f) [] [] false) as [[[applied failed] evs0] frr] eqn:Ea.
+  apply apply_loop_spec in Ea as [Hap Hro]; auto.
+  assert (U : forall mid, applied_ok mid = [] -> rolled mid = [] ->
+              trace_undone (evs0 ++ mid ++ rollback_evs applied)).
+  { intros mid M1 M2. unfold trace_undone.
+    rewrite !rolled_app, !applied_ok_app, Hro, M1, M2, rollback_evs_applied, rollback_evs_rolled, Hap.
+    simpl. rewrite app_nil_r. reflexivity. }
+  destruct failed.
+  { intros H; inversion H; subst; split; auto. apply (U []); auto. }
+  destruct (frr && f_test f).
+  { intros H; inversion H; subst; split; auto. apply (U [EFrrTest]); auto. }
+  destruct (frr && f_reload f).
+  { intros H; inversion H; subst; split; auto. apply (U [EFrrTest; EFrrReload]); auto. }
+  destruct (negb (v_persist_first var)).
+  - destruct (f_startup f); [intros H; inversion H; subst; congruence|].
+    destruct (version_changes reg (s_changes (touch s0))); [intros H; inversion H; subst; congruence|].
+    destruct (f_version f); intros H; inversion H; subst; congruence.
+  - destruct (f_startup f); [intros H; inversion H; subst; congruence|].
+    destruct (version_changes reg (s_changes (touch s0))); intros H; inversion H; subst; congruence.
+Qed.
+
 (* ------------------------------------------------------------------ the invariant *)
 Arguments expire : simpl never.
 Definition agrees (cand run : store) (chs : list change) : Prop :=
